@@ -513,6 +513,7 @@ class ArrayTwin:
                 return None
             na = isinstance(a, (X.Node, int, Fraction)) and not isinstance(a, bool); nb = isinstance(b, (X.Node, int, Fraction)) and not isinstance(b, bool)
             if na and nb:
+                if X.lift(a) is X.lift(b): return None          # the very same expression (hash-consed)
                 return None if me.d.equal(X.lift(a), X.lift(b)) else f'{path}: array call gives {me.d.describe(X.lift(b), X.lift(a))}'
             if na != nb:
                 return f'{path}: {type(b).__name__} instead of {type(a).__name__}'
@@ -548,6 +549,7 @@ class ArrayTwin:
         it.call = call
 
     def finish(self, floor=1):
+        self.it.__dict__.pop('call', None)        # later calls of the check are plain again
         n = 0
         for (path, fname), (nc, probs, where) in sorted(self.res.items()):
             if nc == 0: continue
